@@ -37,6 +37,7 @@ type Value struct {
 	Lit   *ast.FuncLit
 	FnObj *types.Func
 	T     types.Type // static type of the expression that produced the value, when known
+	Recv  *Value     // receiver of a bound method value (x.m taken as a value)
 }
 
 func unknownV() Value               { return Value{K: vUnknown} }
@@ -81,7 +82,11 @@ func (v Value) asLin() (*Lin, bool) {
 }
 
 // typeTest is the data of a "typeok" tag: the ok of `x, ok := v.(T)`.
-type typeTest struct{ Val, Type string }
+type typeTest struct {
+	Val, Type string
+	X         Value      // the value whose dynamic type is tested
+	T         types.Type // the type tested for
+}
 
 type termKind int
 
@@ -177,6 +182,11 @@ type Hooks struct {
 	CallValue func(in *Interp, st *State, call *ast.CallExpr, fn *types.Func, args []Value) (out []valState, handled bool)
 	// BinOp may give a domain-specific result for a binary operation on abstract values.
 	BinOp func(l Value, op token.Token, r Value) (Value, bool)
+	// TypeCase is told that a type switch takes the clause (nil: no clause matches and there is no default); it
+	// returns the value the clause variable holds; ok=false drops the path.
+	TypeCase func(in *Interp, st *State, s *ast.TypeSwitchStmt, cc *ast.CaseClause, x Value, ts []types.Type) (Value, bool)
+	// StructLit is told the field values of a struct literal.
+	StructLit func(in *Interp, st *State, e *ast.CompositeLit, names []string, vals []Value)
 	// CaseMatch is told that a tagged switch with a non-constant tag takes
 	// (taken) or skips the case expression; returning false drops the path.
 	CaseMatch func(in *Interp, st *State, tag Value, caseExpr ast.Expr, taken bool) bool
@@ -209,6 +219,14 @@ func (in *Interp) execBlock(sts []*State, list []ast.Stmt) []*State {
 	for i, s := range list {
 		var next []*State
 		anyLive := false
+		if ls, ok := s.(*ast.LabeledStmt); ok {
+			// a forward goto to this label resumes here
+			for _, st := range sts {
+				if st.Term == tGoto && st.Label == ls.Label.Name {
+					st.Term, st.Label = tNone, ""
+				}
+			}
+		}
 		for _, st := range sts {
 			if st.Term != tNone {
 				next = append(next, st)
@@ -324,6 +342,8 @@ func (in *Interp) exec(st *State, s ast.Stmt) []*State {
 		return out
 	case *ast.SwitchStmt:
 		return in.execSwitch(st, s)
+	case *ast.TypeSwitchStmt:
+		return in.execTypeSwitch(st, s)
 	case *ast.ForStmt, *ast.RangeStmt:
 		return in.execLoop(st, s)
 	case *ast.LabeledStmt:
@@ -675,6 +695,81 @@ func (in *Interp) execSwitch(st *State, s *ast.SwitchStmt) []*State {
 	return out
 }
 
+// execTypeSwitch: every clause may be the one taken (the domain may prune through TypeCase); the clause's
+// variable holds the value with the clause's type.
+func (in *Interp) execTypeSwitch(st *State, s *ast.TypeSwitchStmt) []*State {
+	sts := []*State{st}
+	if s.Init != nil {
+		sts = in.exec(st, s.Init)
+	}
+	// the asserted expression: x.(type) or v := x.(type)
+	var ta *ast.TypeAssertExpr
+	switch a := s.Assign.(type) {
+	case *ast.ExprStmt:
+		ta, _ = stripParens(a.X).(*ast.TypeAssertExpr)
+	case *ast.AssignStmt:
+		if len(a.Rhs) == 1 {
+			ta, _ = stripParens(a.Rhs[0]).(*ast.TypeAssertExpr)
+		}
+	}
+	if ta == nil {
+		in.undecided(s, "type switch without a type assertion")
+		return sts
+	}
+	info := in.c.infoFor(s)
+	var out []*State
+	for _, st := range sts {
+		if st.Term != tNone {
+			out = append(out, st)
+			continue
+		}
+		for _, vs := range in.eval(st, ta.X) {
+			hasDefault := false
+			for _, cl := range s.Body.List {
+				cc := cl.(*ast.CaseClause)
+				if cc.List == nil {
+					hasDefault = true
+				}
+				b := vs.st.clone()
+				v := vs.v
+				var ts []types.Type
+				for _, e := range cc.List {
+					ts = append(ts, in.c.typeOf(e))
+				}
+				if len(ts) == 1 && ts[0] != nil {
+					v.T = ts[0]
+				}
+				if in.h.TypeCase != nil {
+					nv, ok := in.h.TypeCase(in, b, s, cc, vs.v, ts)
+					if !ok {
+						continue
+					}
+					v = nv
+				}
+				if obj := info.Implicits[cc]; obj != nil {
+					b.Env[obj] = v
+				}
+				out = append(out, in.execBlock([]*State{b}, cc.Body)...)
+			}
+			if !hasDefault {
+				// no clause matches: the statement is skipped
+				b := vs.st.clone()
+				if in.h.TypeCase == nil {
+					out = append(out, b)
+				} else if _, ok := in.h.TypeCase(in, b, s, nil, vs.v, nil); ok {
+					out = append(out, b)
+				}
+			}
+		}
+	}
+	for _, st := range out {
+		if st.Term == tBreak && st.Label == "" {
+			st.Term = tNone
+		}
+	}
+	return out
+}
+
 func (in *Interp) switchArms(st *State, s *ast.SwitchStmt, tag *Value) []*State {
 	clauses := s.Body.List
 	var out []*State
@@ -995,6 +1090,15 @@ func (in *Interp) eval(st *State, e ast.Expr) []valState {
 			}
 		}
 		if f, ok := in.c.objOf(e).(*types.Func); ok {
+			// a method value keeps its receiver (a method expression T.m has none)
+			if sel := in.c.infoFor(e).Selections[e]; sel != nil && sel.Kind() == types.MethodVal {
+				var out []valState
+				for _, vs := range in.eval(st, e.X) {
+					rv := vs.v
+					out = append(out, valState{vs.st, Value{K: vFunc, FnObj: f, Recv: &rv}})
+				}
+				return out
+			}
 			return one(st, Value{K: vFunc, FnObj: f})
 		}
 		// evaluate the operand for its effects (calls inside)
@@ -1090,13 +1194,18 @@ func (in *Interp) eval(st *State, e ast.Expr) []valState {
 		}
 		return in.evalForEffects(st, []ast.Expr{e.X, e.Low, e.High, e.Max}, in.c.typeOf(e))
 	case *ast.TypeAssertExpr:
+		if in.h.Load != nil {
+			if v, ok := in.h.Load(in, st, e); ok {
+				return one(st, v)
+			}
+		}
 		var out []valState
 		for _, vs := range in.eval(st, e.X) {
 			v := vs.v
 			v.T = in.c.typeOf(e)
 			if tup, ok := v.T.(*types.Tuple); ok && tup.Len() == 2 {
 				// comma-ok form: the second value names the test
-				v = Value{K: vTuple, Tup: []Value{vs.v, tagV("typeok", typeTest{vs.v.String(), types.TypeString(tup.At(0).Type(), nil)})}}
+				v = Value{K: vTuple, Tup: []Value{vs.v, tagV("typeok", typeTest{vs.v.String(), types.TypeString(tup.At(0).Type(), nil), vs.v, tup.At(0).Type()})}}
 			}
 			out = append(out, valState{vs.st, v})
 		}
@@ -1143,6 +1252,28 @@ func (in *Interp) eval(st *State, e ast.Expr) []valState {
 					}
 				}
 			}
+		}
+		// a struct literal: the domain is told which field got which value, on every path of the element
+		// expressions
+		if stt, ok := derefType(in.c.typeOf(e)).Underlying().(*types.Struct); ok && in.h.StructLit != nil && len(e.Elts) > 0 {
+			var names []string
+			for i, el := range e.Elts {
+				name := ""
+				if kv, ok := el.(*ast.KeyValueExpr); ok {
+					if id, ok := kv.Key.(*ast.Ident); ok {
+						name = id.Name
+					}
+				} else if i < stt.NumFields() {
+					name = stt.Field(i).Name()
+				}
+				names = append(names, name)
+			}
+			var out []valState
+			for _, a := range in.evalArgs(st, exprs) {
+				in.h.StructLit(in, a.st, e, names, a.vals)
+				out = append(out, valState{a.st, Value{K: vUnknown, T: in.c.typeOf(e)}})
+			}
+			return out
 		}
 		return in.evalForEffects(st, exprs, in.c.typeOf(e))
 	case *ast.KeyValueExpr:
@@ -1344,6 +1475,14 @@ func (in *Interp) evalCall(st *State, call *ast.CallExpr) []valState {
 			if v, ok := st.Env[in.c.objOf(id)]; ok && v.K == vFunc {
 				fnVal = &v
 			}
+		} else if _, isCall := stripParens(call.Fun).(*ast.CallExpr); isCall && in.h.CallValue != nil {
+			// f(a)(b): the function part is itself a call (only for domains that follow function values)
+			fvs := in.eval(st, call.Fun)
+			if len(fvs) == 1 && fvs[0].v.K == vFunc {
+				st = fvs[0].st
+				v := fvs[0].v
+				fnVal = &v
+			}
 		}
 	}
 	for _, a := range in.evalArgs(st, call.Args) {
@@ -1374,7 +1513,7 @@ func (in *Interp) evalCall(st *State, call *ast.CallExpr) []valState {
 		}
 		if fnVal != nil && fnVal.FnObj != nil && in.h.Inline != nil && in.h.Inline(fnVal.FnObj) {
 			if fd := in.c.funcDecls[fnVal.FnObj]; fd != nil && fd.Body != nil {
-				out = append(out, in.inlineDecl(a.st, fd, call, args)...)
+				out = append(out, in.inlineDeclRecv(a.st, fd, call, args, fnVal.Recv)...)
 				continue
 			}
 		}
@@ -1394,6 +1533,14 @@ func (in *Interp) inlineLit(st *State, lit *ast.FuncLit, args []Value) []valStat
 }
 
 func (in *Interp) inlineDecl(st *State, fd *ast.FuncDecl, call *ast.CallExpr, args []Value) []valState {
+	return in.inlineDeclRecv(st, fd, call, args, nil)
+}
+
+// inlineDeclRecv: bound is the receiver of a bound method value being called, when known.
+func (in *Interp) inlineDeclRecv(st *State, fd *ast.FuncDecl, call *ast.CallExpr, args []Value, bound *Value) []valState {
+	if bound != nil && fd.Recv != nil {
+		return in.inlineBody(st, fd.Type, fd.Body, fd.Recv, args, recvOpt{bound})
+	}
 	var recv *Value
 	if fd.Recv != nil && len(fd.Recv.List) == 1 && len(fd.Recv.List[0].Names) == 1 {
 		v := Value{K: vUnknown}
@@ -1402,6 +1549,12 @@ func (in *Interp) inlineDecl(st *State, fd *ast.FuncDecl, call *ast.CallExpr, ar
 			if id, ok := stripParens(sel.X).(*ast.Ident); ok {
 				if ev, ok := st.Env[in.c.objOf(id)]; ok {
 					v = ev
+				}
+			} else if in.h.CallValue != nil {
+				// a computed receiver (f(x).m(...)): its value, for domains that follow values
+				if rvs := in.eval(st, sel.X); len(rvs) == 1 {
+					st = rvs[0].st
+					v = rvs[0].v
 				}
 			}
 		}
